@@ -105,6 +105,9 @@ def parse_kani(out):
     checks = []
     for m in CHECK_RE.finditer(out):
         desc = m.group("desc")
+        if desc.startswith("concat!("):
+            # tags assembled with concat!("C01/", "any", ".x"): Kani prints the macro call text
+            desc = "".join(re.findall(r'\\?"((?:[^"\\]|\\[^"])*?)\\?"', desc))
         if desc.startswith('"') and desc.endswith('"'):
             desc = desc[1:-1]
         checks.append({"name": m.group("name"), "status": m.group("status"), "desc": desc, "loc": m.group("loc")})
